@@ -65,7 +65,7 @@ type viol struct {
 	witness    any
 }
 
-func sizesList() []int { return []int{2, 2, 3, 3, 4, 5, 6, 7, 8, 10, 12, 15, 18, 20, 20} }
+func sizesList() []int { return []int{2, 2, 3, 3, 4, 5, 6, 7, 8, 10, 12, 15, 18, 20} }
 
 func mainExecers() []string { return []string{"coins", "token", "none", "user.write", "manage"} }
 
@@ -473,7 +473,7 @@ func run(c *lib.Ctx) {
 		pprof.StartCPUProfile(f)
 		defer pprof.StopCPUProfile()
 	}
-	c.Rule("case i = one honest group (size cycles through 2,2,3,3,4,5,6,7,8,10,12,15,18,20,20; 30% parachain groups; members over 5 executors, payload sizes around the 1000-byte fee step, 5 expiry encodings, 1..n distinct signers over all keyed crypto drivers and two address formats) built by types.CreateTxGroup and signed per member; " +
+	c.Rule("case i = one honest group (size cycles through 2,2,3,3,4,5,6,7,8,10,12,15,18,20; 30% parachain groups; members over 5 executors, payload sizes around the 1000-byte fee step, 5 expiry encodings, 1..n distinct signers over all keyed crypto drivers and two address formats) built by types.CreateTxGroup and signed per member; " +
 		"exhaustive mutants per group: all pair swaps/reverse/rotate, drop each, every prefix/suffix, insert (duplicate / attacker tx fitted with groupCount n and n+1) at every position, substitute each member (fitted attacker tx / other member / member of another valid group), splice, every descriptor-enumerated field mutation of every member incl. signature sub-fields, fee rules with honest re-signing; structural and field mutants are also tried after an attacker rebuild (RebuiltGroup + re-sign of attacker-owned members only). " +
 		"A mutant is accepted if Check==nil && CheckSign directly OR through the carrier form (group.Tx() encoded, decoded, TransactionCache.Check/CheckSign). " +
 		"non-trivial = honest group accepted on both paths and the monitor saw mutants rejected by Check AND mutants that passed Check and were rejected only by CheckSign; fingerprint = member hashes")
@@ -502,7 +502,7 @@ func run(c *lib.Ctx) {
 		c.Inconclusive("only %d usable crypto drivers: %v", len(e.drivers), e.drivers)
 		return
 	}
-	n := c.N(60, 2400)
+	n := c.N(56, 840)
 	var mu sync.Mutex
 	classes := map[string]int64{}
 	lib.Parallel(n, runtime.NumCPU(), func(i int) {
@@ -554,7 +554,7 @@ func run(c *lib.Ctx) {
 			classes[k] += v
 			c.Seen("mutation_classes", k)
 		}
-		c.Count("mutants_identical_after_rebuild_skipped", 0)
+
 		// one violation per shape and case
 		seen := map[string]bool{}
 		for _, v := range vs {
